@@ -1,5 +1,77 @@
-(* C12: today's printers violate the property (witnesses). *)
+(* C12: today's code violates the property.  Witnesses against the _current variants: the printers as they are
+   (num_repaired = dur_repaired = false) and hand-written copies of today's precedence table / operator map, so that
+   these theorems do not change when the repository is repaired (the generated tables do). *)
 From Coq Require Import ZArith NArith List Bool.
 From OG Require Import C12.Model.
 Import ListNotations.
 Open Scope N_scope.
+
+Definition prec_current (o : op) : N :=
+  match o with
+  | OOr => 1 | OAnd => 2
+  | OEq | ONeq | OEqRegex | ONeqRegex | OLt | OLte | OGt | OGte => 3
+  | OAdd | OSub | OBitOr | OBitXor => 4
+  | OMul | ODiv | OMod | OBitAnd => 5
+  | OLike | OMatch | OMatchPhrase | OIpInRange => 6
+  end.
+Definition isop_current (o : op) : bool := match o with OBitAnd | OBitOr | OBitXor => false | _ => true end.
+Definition isop_repaired (o : op) : bool := true.
+
+Definition va := EVar [97] DUnknown.
+Definition vb := EVar [98] DUnknown.
+Definition vc := EVar [99] DUnknown.
+
+(* a / 2.0 > 1.2: canonical for the repaired printer, but today's NumberLiteral printer emits "2" and the parser reads
+   an IntegerLiteral *)
+Theorem C12_integral_float_refuted : exists e,
+  canon prec_current isop_current [] true true false e = true /\
+  parse prec_current isop_current (print_toks false false e) <> Some e.
+Proof.
+  exists (EBin OGt (EBin ODiv va (ENum false 2 [])) (ENum false 1 [2])).
+  split; [vm_compute; reflexivity | vm_compute; discriminate].
+Qed.
+Print Assumptions C12_integral_float_refuted.
+
+(* 1ns prints "0u" and is read back as 0 *)
+Theorem C12_duration_ns_refuted : exists z,
+  format_duration_current z = [48; 117] /\ parse_duration (format_duration_current z) = Some 0%Z /\ z <> 0%Z /\
+  canon prec_current isop_current [] true true false (EDur z) = true /\
+  parse prec_current isop_current (print_toks false false (EDur z)) <> Some (EDur z).
+Proof.
+  exists 1%Z. repeat split; try (vm_compute; reflexivity); vm_compute; discriminate.
+Qed.
+Print Assumptions C12_duration_ns_refuted.
+
+(* the statement parser (sql.y: %left AND OR on one level) builds (a = 1 OR b = 2) AND c = 3 for
+   `a = 1 OR b = 2 AND c = 3`; printing adds no parentheses; ParseExpr regroups it *)
+Definition and_or_tree : expr :=
+  EBin OAnd (EBin OOr (EBin OEq va (EInt 1)) (EBin OEq vb (EInt 2))) (EBin OEq vc (EInt 3)).
+Theorem C12_and_or_refuted :
+  parse prec_current isop_current (print_toks true true and_or_tree)
+  = Some (EBin OOr (EBin OEq va (EInt 1)) (EBin OAnd (EBin OEq vb (EInt 2)) (EBin OEq vc (EInt 3)))).
+Proof. vm_compute. reflexivity. Qed.
+Print Assumptions C12_and_or_refuted.
+
+(* the image of ParseExpr itself is not closed under print/parse: `b / -a` *)
+Theorem C12_unary_minus_refuted : exists toks e,
+  parse prec_current isop_current toks = Some e /\ parse prec_current isop_current (print_toks true true e) <> Some e.
+Proof.
+  exists [TIdent [98]; TWs; TOp ODiv; TWs; TOp OSub; TIdent [97]], (EBin ODiv vb (EBin OMul (EInt (-1)) va)).
+  split; [vm_compute; reflexivity | vm_compute; discriminate].
+Qed.
+Print Assumptions C12_unary_minus_refuted.
+
+(* & | ^ have a precedence but are not in operatorMap: ParseExpr silently returns the left operand only *)
+Theorem C12_bitwise_refuted :
+  parse prec_current isop_current (print_toks true true (EBin OEq (EBin OBitAnd va (EInt 1)) (EInt 1))) = Some va /\
+  parse prec_current isop_repaired (print_toks true true (EBin OEq (EBin OBitAnd va (EInt 1)) (EInt 1)))
+  = Some (EBin OEq (EBin OBitAnd va (EInt 1)) (EInt 1)).
+Proof. split; vm_compute; reflexivity. Qed.
+Print Assumptions C12_bitwise_refuted.
+
+(* a field called nan is read back as the number NaN *)
+Theorem C12_ident_nan_refuted :
+  parse prec_current isop_current (print_toks true true (EBin OGt (EVar [110;97;110] DUnknown) (EInt 1)))
+  = Some (EBin OGt (ESpecial 2) (EInt 1)).
+Proof. vm_compute. reflexivity. Qed.
+Print Assumptions C12_ident_nan_refuted.
